@@ -95,7 +95,7 @@ def _rexpr(prog, fn, e, inners):
         g = find(prog, e["n"])
         r = _ref(prog, mod, e["n"])
         return {"int": r, "list": "sum(%s)" % r, "dict": "%s[\"k\"]" % r, "str": "len(%s)" % r,
-                "dictset": "sum(%s.values())" % r}[g["vtype"]]
+                "dictset": "sum(%s.values())" % r, "tuplist": "(%s[0] + sum(%s[1]))" % (r, r)}[g["vtype"]]
     if t in ("add", "mul"):
         return "(%s %s %s)" % (_rexpr(prog, fn, e["a"], inners), "+" if t == "add" else "*", _rexpr(prog, fn, e["b"], inners))
     if t == "inset":
@@ -137,6 +137,9 @@ def render_def(prog, d):
             # a dict whose insertion order follows the iteration order of a set of strings (hash-seed dependent);
             # its *value* (dict equality) is the same in every process
             return "%s = {k_: len(k_) for k_ in {%s}}\n" % (d["name"], ", ".join(_lit(v) for v in d["value"]))
+        if d["vtype"] == "tuplist":
+            # a tuple (hashable object) holding a list that can be mutated in place
+            return "%s = (%s, %s)\n" % (d["name"], _lit(d["value"]["a"]), _lit(d["value"]["l"]))
         return "%s = %s\n" % (d["name"], _lit(d["value"]))
     if d["k"] == "alias":
         return "%s = %s\n" % (d["name"], d["target"])
@@ -323,7 +326,7 @@ def _sites(prog, kind):
             if kind == "varcopy" and any(o["k"] == "var" and o["vtype"] == d["vtype"] and o["value"] != d["value"] for o in prog["defs"]):
                 # give the variable the value another variable of the same type currently has
                 out.append((d, None))
-            if kind == "varmut" and d["vtype"] in ("list", "dict"):
+            if kind == "varmut" and d["vtype"] in ("list", "dict", "tuplist"):
                 out.append((d, None))
     return out
 
@@ -385,6 +388,8 @@ def apply_edit(prog, edit, tag):
             d["value"] = dict(d["value"], k=d["value"]["k"] + delta)
         elif d["vtype"] == "dictset":
             d["value"] = d["value"] + ["n%d%s" % (len(d["value"]), "x" * delta)]
+        elif d["vtype"] == "tuplist":
+            d["value"] = {"a": d["value"]["a"] + delta, "l": list(d["value"]["l"])}
         else:
             d["value"] = d["value"] + "y"
     elif kind == "varcopy":
@@ -394,6 +399,9 @@ def apply_edit(prog, edit, tag):
         if d["vtype"] == "list":
             d["value"] = d["value"] + [delta]
             stmt = "%s.append(%r)\n" % (d["name"], delta)
+        elif d["vtype"] == "tuplist":
+            d["value"] = {"a": d["value"]["a"], "l": d["value"]["l"] + [delta]}
+            stmt = "%s[1].append(%r)\n" % (d["name"], delta)
         else:
             d["value"] = dict(d["value"], k=d["value"]["k"] + delta)
             stmt = "%s[\"k\"] = %r\n" % (d["name"], d["value"]["k"])
@@ -434,7 +442,7 @@ def apply_edit(prog, edit, tag):
 # ------------------------------------------------------------------------------------------
 
 def program_strategy(max_fns=6, two_modules=True, allow_hidden=True, allow_explicit=True, allow_cluster=True,
-                     str_sets=True, allow_hidden_plain=False, allow_alias=True, explicit_f0=False, value_heavy=False, allow_fdef=False, allow_dictset=False, allow_init=False, allow_query=False):
+                     str_sets=True, allow_hidden_plain=False, allow_alias=True, explicit_f0=False, value_heavy=False, allow_fdef=False, allow_dictset=False, allow_init=False, allow_query=False, allow_tuplist=False):
     from hypothesis import strategies as st
 
     small = st.integers(0, 9)
@@ -454,8 +462,11 @@ def program_strategy(max_fns=6, two_modules=True, allow_hidden=True, allow_expli
             vt = "int" if value_heavy else draw(st.sampled_from(["int", "int", "int", "list", "dict", "str"] if tiny else ["int", "int", "list", "dict", "str"]))
             if allow_dictset and not value_heavy and draw(st.integers(0, 3)) == 0:
                 vt = "dictset"
+            elif allow_tuplist and not value_heavy and draw(st.integers(0, 3)) == 0:
+                vt = "tuplist"
             val = {"int": draw(small_v), "list": draw(st.lists(small_v, max_size=3)), "dict": {"k": draw(small_v), "z": 1},
                    "dictset": draw(st.lists(st.sampled_from(["a", "bb", "ccc", "dddd", "e", "zz9", "q"]), min_size=2, max_size=5, unique=True)),
+                   "tuplist": {"a": draw(small_v), "l": draw(st.lists(small_v, max_size=2))},
                    "str": draw(st.text(alphabet="ab", max_size=3))}[vt]
             defs.append({"k": "var", "mod": draw(st.sampled_from(modules)), "name": "G%d" % i, "vtype": vt, "value": val})
         fnames = ["f%d" % i for i in range(nf)]
@@ -599,6 +610,8 @@ def features(prog):
         f.add("package-init-module")
     if any(d["k"] == "var" and d["vtype"] == "dictset" for d in prog["defs"]):
         f.add("dict-from-set")
+    if any(d["k"] == "var" and d["vtype"] == "tuplist" for d in prog["defs"]):
+        f.add("tuple-holding-list")
     if any(d["k"] in ("alias", "wrapper") for d in prog["defs"]):
         f.add("alias-or-wrapper")
     if any(d["k"] == "query" for d in prog["defs"]):
